@@ -385,7 +385,7 @@ void mmd_export_image_latex(DString * out, const char * source, token * text, li
 
 		if (width) {
 			// Width specified
-			if (width[strlen(width) - 1] == '%') {
+			if (width[0] && (width[strlen(width) - 1] == '%')) {
 				// specified as percent
 				width[strlen(width) - 1] = '\0';
 				temp_float = strtod(width, NULL);
@@ -403,7 +403,7 @@ void mmd_export_image_latex(DString * out, const char * source, token * text, li
 
 		if (height) {
 			// Height specified
-			if (height[strlen(height) - 1] == '%') {
+			if (height[0] && (height[strlen(height) - 1] == '%')) {
 				// specified as percent
 				height[strlen(height) - 1] = '\0';
 				temp_float = strtod(height, NULL);
